@@ -80,6 +80,10 @@ impl HeapHandle {
     #[verifier::external_body]
     pub fn remove(&self, node: NodeRef) requires node.height_in_recompute_heap >= 0 { unimplemented!() }
 }
+/// the part of State that handle_after_stabilisation touches (R5 on the `state` parameter)
+pub struct StateHAS { pub handle_after_stabilisation: Vec<WeakNode> }
+pub uninterp spec fn weak_of_node(n: &Node) -> WeakNode;
+
 #[verifier::external_body]
 pub struct StackGuard { _p: u8 }
 impl StackGuard {
@@ -143,6 +147,8 @@ pub struct Node {
     pub observers: ObserverMap,
     pub force_necessary: bool,
     pub height_in_recompute_heap: i32,
+    pub num_on_update_handlers: i32,
+    pub is_in_handle_after_stabilisation: bool,
     pub value_opt: Option<OpaqueKind>,
     pub created_in: ScopeStandIn,
     pub changed_at_cell: StampCell,
@@ -165,6 +171,8 @@ impl Node {
     fn is_stale_with_respect_to_a_child(&self) -> (r: bool) ensures r == stale_wrt_a_child(self) { unimplemented!() }
     #[verifier::external_body]
     fn maybe_handle_after_stabilisation(&self, state: &State) { unimplemented!() }
+    #[verifier::external_body]
+    fn weak__has(&self) -> (r: WeakNode) ensures r == weak_of_node(self) { unimplemented!() }
     #[verifier::external_body]
     fn add_parent(&self, child_index: i32, parent_ref: &Node) { unimplemented!() }
     #[verifier::external_body]
@@ -337,6 +345,40 @@ impl Node {
 //@|         parent_ref.expert_payload() is Some,           // the new parent is a (valid) expert node
 //@|         forall|e: &ExpertLatch, i: int| may_run_edge_callback(e, i) <==> (parent_ref.expert_payload() == Some(e) && i == child_index),
 //@|     ensures false, // [linking-a-child-under-an-expert-node-always-runs-that-edges-callback-on-the-parent]
+//@end
+
+//@extract fn Node::handle_after_stabilisation
+//@ file: src/node.rs
+//@ impl: impl ErasedNode for Node
+//@ name: handle_after_stabilisation
+//@ as: fn handle_after_stabilisation__real(&mut self, state: &mut StateHAS)
+//@ cells: is_in_handle_after_stabilisation
+//@ cells@state: handle_after_stabilisation
+//@ rule R5: `let is_in_stack = &self.is_in_handle_after_stabilisation;` => `` x1
+//@ rule R5: `!is_in_stack.get()` => `!self.is_in_handle_after_stabilisation` x1
+//@ rule R5: `is_in_stack.set(true);` => `self.is_in_handle_after_stabilisation = true;` x1
+//@ rule R8: `stack.push(self.weak());` => `stack.push(self.weak__has());` x1
+//@ props: C09
+//@ contract:
+//@|     ensures
+//@|         final(self).is_in_handle_after_stabilisation, // [the-node-is-marked-as-queued-for-its-handlers]
+//@|         final(state).handle_after_stabilisation@ == (if old(self).is_in_handle_after_stabilisation { old(state).handle_after_stabilisation@ } else { old(state).handle_after_stabilisation@.push(weak_of_node(final(self))) }), // [queued-exactly-once-per-stabilisation]
+//@|         final(self).num_on_update_handlers == old(self).num_on_update_handlers && final(self).changed_at == old(self).changed_at, // [frame]
+//@end
+
+//@extract fn Node::maybe_handle_after_stabilisation
+//@ file: src/node.rs
+//@ impl: impl ErasedNode for Node
+//@ name: maybe_handle_after_stabilisation
+//@ as: fn maybe_handle_after_stabilisation__real(&mut self, state: &mut StateHAS)
+//@ cells: num_on_update_handlers
+//@ rule R5: `self.handle_after_stabilisation(state);` => `self.handle_after_stabilisation__real(state);` x1
+//@ props: C09
+//@ contract:
+//@|     ensures
+//@|         old(self).num_on_update_handlers > 0 ==> final(self).is_in_handle_after_stabilisation
+//@|             && final(state).handle_after_stabilisation@ == (if old(self).is_in_handle_after_stabilisation { old(state).handle_after_stabilisation@ } else { old(state).handle_after_stabilisation@.push(weak_of_node(final(self))) }), // [a-node-with-handlers-is-queued-once]
+//@|         old(self).num_on_update_handlers <= 0 ==> final(state).handle_after_stabilisation@ == old(state).handle_after_stabilisation@ && final(self).is_in_handle_after_stabilisation == old(self).is_in_handle_after_stabilisation, // [a-node-without-handlers-is-not-queued]
 //@end
 
 //@extract fn Node::maybe_change_value_manual@prefix
